@@ -263,6 +263,132 @@ fn main() {
             sink.witness("C02-unregistered-slot", o1.starts_with("ok") && !o3.starts_with("ok"), &format!("aggregate(sigs ++ [sig with unregistered signer_index]) = {}", o3));
         }
     }
+    // ==== (2) the same through mithril-common: entities::SingleSignature -> protocol::MultiSigner ==================
+    // (`aggregate_single_signatures`, `verify_single_signature`: what the aggregator calls)
+    {
+        use mithril_common::entities::{ProtocolMessage, ProtocolMessagePartKey, ProtocolParameters, SingleSignature as EntSig};
+        use mithril_common::protocol::{SignerBuilder, ToMessage};
+        use mithril_common::test::builder::{MithrilFixtureBuilder, StakeDistributionGenerationMethod};
+        let nworlds = if args.thorough() { 24 } else { 4 };
+        let nlists = if args.thorough() { 120 } else { 50 };
+        for w in 0..nworlds {
+            let n = rng.range(2, 6) as usize;
+            let m = rng.range(6, 20);
+            let params = ProtocolParameters { k: 1, m, phi_f: *rng.pick(&[0.3, 0.65, 0.95]) };
+            let mut seed = [0u8; 32]; seed[0] = w as u8; seed[1] = args.seed as u8;
+            let fixture = MithrilFixtureBuilder::default().with_signers(n).with_protocol_parameters(params.clone())
+                .with_stake_distribution(StakeDistributionGenerationMethod::RandomDistribution { seed, min_stake: 1 }).build();
+            let mut message = ProtocolMessage::new();
+            message.set_message_part(ProtocolMessagePartKey::SnapshotDigest, hutil::hex(&rng.bytes(16)));
+            let mut other_message = ProtocolMessage::new();
+            other_message.set_message_part(ProtocolMessagePartKey::SnapshotDigest, "other".into());
+            let honest: Vec<EntSig> = fixture.signers_fixture().iter().filter_map(|s| s.sign(&message)).collect();
+            let others: Vec<EntSig> = fixture.signers_fixture().iter().filter_map(|s| s.sign(&other_message)).collect();
+            if honest.is_empty() { continue; }
+            let msg_bytes = message.to_message().into_bytes();
+            let stm_params: Parameters = params.clone().into();
+            let builder = SignerBuilder::new(&fixture.signers_with_stake(), &params).unwrap();
+            // the same registration at the STM level (to look up the party registered at a signer index)
+            let mut key_reg = mithril_stm::KeyRegistration::initialize();
+            for sw in fixture.signers_with_stake() {
+                let vkpop: mithril_stm::VerificationKeyProofOfPossessionForConcatenation = sw.verification_key_for_concatenation.into();
+                key_reg.register(sw.stake, &vkpop).unwrap();
+            }
+            let closed = key_reg.close_registration(&stm_params).unwrap();
+            let stm_clerk = mithril_stm::Clerk::<D>::new_clerk_from_closed_key_registration(&stm_params, &closed);
+            // S: every signature produced by a registered signer verifies (through the wrapper)
+            {
+                let ms = builder.build_multi_signer();
+                for s in &honest {
+                    honest_total += 1;
+                    if ms.verify_single_signature(&message, s).is_err() {
+                        let i = sink.next_index();
+                        sink.sfail(i, "honest-single-invalid", "MultiSigner::verify_single_signature rejects a signature produced by a registered signer", &format!("common world {} party {}", w, s.party_id));
+                    }
+                }
+            }
+            let avk = builder.compute_aggregate_verification_key();
+            // validity per the protocol (key registered at the signer index, message, indices): what the selection uses
+            let valid_of = |s: &EntSig| -> bool {
+                let p = s.to_protocol_signature();
+                match stm_clerk.get_concatenation_registered_party_for_index(&p.signer_index) {
+                    Ok((vk, stake)) => p.verify(&stm_params, &vk, &stake, &avk, &msg_bytes).is_ok(),
+                    Err(_) => false,
+                }
+            };
+            let mut pool: Vec<(EntSig, bool)> = honest.iter().map(|s| (s.clone(), true)).collect();
+            let mut extra: Vec<(EntSig, bool)> = vec![];
+            for s in &others { extra.push((s.clone(), valid_of(s))); }
+            for s in &honest {
+                let mut p = s.to_protocol_signature();
+                let idx = p.get_concatenation_signature_indices();
+                if idx.len() >= 2 {
+                    let sub: Vec<u64> = idx.iter().cloned().filter(|_| rng.bool()).collect();
+                    p.set_concatenation_signature_indices(&sub);
+                    let e = EntSig::new(s.party_id.clone(), p.clone().into(), sub);
+                    extra.push((e.clone(), valid_of(&e)));
+                }
+                let mut p = s.to_protocol_signature();
+                p.signer_index = (p.signer_index + 1) % n as u64;
+                let e = EntSig::new(s.party_id.clone(), p.into(), s.won_indexes.clone());
+                extra.push((e.clone(), valid_of(&e)));
+                // the entity's own `won_indexes` field disagreeing with the signature it wraps: must not matter
+                let e = EntSig::new(s.party_id.clone(), s.signature.clone(), vec![0, 1, 2]);
+                extra.push((e.clone(), valid_of(&e)));
+                // relabelled: another party id on the same signature (aggregation is by key, not by label)
+                let e = EntSig::new("someone-else", s.signature.clone(), s.won_indexes.clone());
+                extra.push((e.clone(), valid_of(&e)));
+            }
+            let mut rank: BTreeMap<Vec<u8>, usize> = BTreeMap::new();
+            let mut all: Vec<Vec<u8>> = pool.iter().chain(extra.iter()).map(|(e, _)| sigma_bytes(&e.to_protocol_signature())).collect();
+            all.sort(); all.dedup();
+            for (i, s) in all.iter().enumerate() { rank.insert(s.clone(), i); }
+            let req_of = |list: &[(EntSig, bool)], k: u64| -> String {
+                format!("c02.select k={} sigs=[{}]", k, list.iter().map(|(e, v)| { let p = e.to_protocol_signature(); format!("({},{},{},{},{})", rank[&sigma_bytes(&p)], p.signer_index, p.signer_index, hutil::list(&p.get_concatenation_signature_indices()), *v as u8) }).collect::<Vec<_>>().join(","))
+            };
+            let run = |list: &[(EntSig, bool)], k: u64| -> (String, bool) {
+                let mut pk = params.clone(); pk.k = k;
+                let ms = match SignerBuilder::new(&fixture.signers_with_stake(), &pk) { Ok(b) => b.build_multi_signer(), Err(_) => return ("err other".into(), false) };
+                let sigs: Vec<EntSig> = list.iter().map(|(e, _)| e.clone()).collect();
+                let msg = message.clone();
+                match catch(std::panic::AssertUnwindSafe(|| ms.aggregate_single_signatures(&sigs, &msg, mithril_stm::AggregateSignatureType::Concatenation, ancillary()).map_err(|e| format!("{:?}", e)))) {
+                    Err(_) => ("panic".into(), false),
+                    Ok(Err(e)) => { let c = e.split("Got only ").nth(1).and_then(|r| r.split(' ').next()).and_then(|c| c.parse::<u64>().ok()); (c.map(|c| format!("err {}", c)).unwrap_or("err other".into()), false) }
+                    Ok(Ok(r)) => {
+                        let v = serde_json::to_value(&*r.multi_signature).unwrap();
+                        let mut sel: Vec<(u64, Vec<u64>)> = v["signatures"].as_array().unwrap().iter().map(|s| (s[0]["signer_index"].as_u64().unwrap(), s[0]["indexes"].as_array().unwrap().iter().map(|x| x.as_u64().unwrap()).collect())).collect();
+                        sel.sort();
+                        let pk_stm: Parameters = pk.clone().into();
+                        let verifies = r.multi_signature.verify(&msg_bytes, &ms.compute_aggregate_verification_key(), &pk_stm, None, None).is_ok();
+                        (format!("ok [{}]", sel.iter().map(|(s, i)| format!("({},{})", s, hutil::list(i))).collect::<Vec<_>>().join(",")), verifies)
+                    }
+                }
+            };
+            for li in 0..nlists {
+                if !sink.wanted() { sink.skip(); continue; }
+                rng.shuffle(&mut pool);
+                let take = rng.range(1, pool.len() as u64) as usize;
+                let base: Vec<(EntSig, bool)> = pool[..take].to_vec();
+                let cover: BTreeSet<u64> = base.iter().filter(|(_, v)| *v).flat_map(|(e, _)| e.to_protocol_signature().get_concatenation_signature_indices()).collect();
+                let cover = cover.len() as u64;
+                let k = match rng.below(3) { 0 => cover.max(1), 1 => cover + 1, _ => rng.range(1, cover.max(1)) };
+                let mut ext = base.clone();
+                for _ in 0..rng.range(1, 4) {
+                    let it = match li % 3 { 0 => base[rng.below(base.len() as u64) as usize].clone(), 1 => extra[rng.below(extra.len() as u64) as usize].clone(), _ => pool[rng.below(pool.len() as u64) as usize].clone() };
+                    let pos = rng.below(ext.len() as u64 + 1) as usize;
+                    ext.insert(pos, it);
+                }
+                let (ob, vb) = run(&base, k);
+                let (oe, ve) = run(&ext, k);
+                let ib = sink.case("common-base", &req_of(&base, k), &ob);
+                let ie = sink.case(match li % 3 { 0 => "common-ext-repeated", 1 => "common-ext-mixed", _ => "common-ext-more-honest" }, &req_of(&ext, k), &oe);
+                if cover >= k && !ob.starts_with("ok") { sink.sfail(ib, "incomplete", &format!("MultiSigner: {} distinct valid indices cover k={} but aggregation failed: {}", cover, k, ob), &req_of(&base, k)); }
+                if ob.starts_with("ok") && !vb { sink.sfail(ib, "result-does-not-verify", "MultiSigner: aggregation succeeded but its result does not verify", &req_of(&base, k)); }
+                if oe.starts_with("ok") && !ve { sink.sfail(ie, "result-does-not-verify", "MultiSigner: aggregation succeeded but its result does not verify", &req_of(&ext, k)); }
+                if ob.starts_with("ok") && !oe.starts_with("ok") { sink.sfail(ie, "non-monotone", &format!("MultiSigner: success turned into failure by extra material: {} -> {}", ob, oe), &req_of(&ext, k)); }
+            }
+        }
+    }
     sink.note("honest_single_signatures_verified", &honest_total.to_string());
     sink.finish();
 }
